@@ -404,6 +404,9 @@ structure CState where
   reads     : List (Nat × Nat) := []         -- per binding position
   writes    : List (Nat × Nat) := []
   failed    : Option String := none
+  wrongPop  : Bool := false                  -- diagnostic only (no decision reads it): the
+                                             --   "never used again" branch popped an element of
+                                             --   ANOTHER binding (it compares `.obj` only)
   deriving Repr
 
 def addAt (l : List (Nat × Nat)) (i v : Nat) : List (Nat × Nat) :=
@@ -462,7 +465,9 @@ def cstep (ls : Nat) (cap : Option Nat) (s : CState) (x : Nat × Acc) : CState :
     else
       let popped : Option CState :=
         match s.nextEvict with
-        | e :: rest => if e.obj = a.point then some { s with nextEvict := rest } else none
+        | e :: rest => if e.obj = a.point then
+                         some { s with nextEvict := rest, wrongPop := s.wrongPop || decide (e.pos ≠ i) }
+                       else none
         | [] => none
       let s' : Option CState := match popped with
         | some s' => some s'
